@@ -115,6 +115,52 @@ Proof.
   repeat (destruct X as [-> | X]); try subst x; vm_compute; (split; [split; congruence|reflexivity]).
 Qed.
 
+(** C05's protect / unprotect round trip with the packet-number hypothesis in its weakest form:
+    the receiver's decoding of the truncated number gives the number (C05 states it for the
+    RFC 9000 A.3 window; a FIRST packet is decoded for every number that fits its encoding,
+    first_pn_decodable_iff).  The proof is C05's, with the decode fact as a hypothesis. *)
+Section RoundtripDec.
+  Variable aead_seal : Z -> Z -> list Z -> list Z -> list Z.
+  Variable aead_open : Z -> Z -> list Z -> list Z -> option (list Z).
+  Variable hp_mask : list Z -> list Z.
+  Hypothesis open_seal : forall pn kp ad p, aead_open pn kp ad (aead_seal pn kp ad p) = Some p.
+  Hypothesis seal_length : forall pn kp ad p, length (aead_seal pn kp ad p) = (length p + 16)%nat.
+
+  Lemma protect_roundtrip_dec first mid pn pnLen payload largest :
+    (1 <= pnLen <= 4)%nat -> wf_first true first pnLen 0 ->
+    decodePN (Z.of_nat pnLen) largest (truncatePN (Z.of_nat pnLen) pn) = pn ->
+    payload <> [] -> (4 <= pnLen + length payload)%nat ->
+    unprotect aead_open hp_mask true (1 + length mid) largest
+      (protect aead_seal hp_mask true (mk_header first mid pnLen pn) payload pn 0 pnLen)
+    = UOk first pn (Z.of_nat pnLen) 0 payload.
+  Proof.
+    intros Hl (Hpl & Hwf) Hdec Hne Hmin.
+    unfold mk_header.
+    pose proof (pn_bytes_length pnLen pn) as Hpb.
+    pose proof (protect_shape aead_seal aead_open hp_mask true first mid (pn_bytes pnLen pn) payload pn 0) as Hp.
+    cbv zeta in Hp. rewrite Hpb in Hp. rewrite Hp. clear Hp.
+    set (hdr := first :: mid ++ pn_bytes pnLen pn).
+    set (ct := aead_seal pn 0 hdr payload).
+    set (mask := hp_mask (firstn 16 (skipn 4 (pn_bytes pnLen pn ++ ct)))).
+    set (pnb' := xor_bytes (pn_bytes pnLen pn) (skipn 1 mask)).
+    assert (Hpb' : length pnb' = pnLen) by (subst pnb'; rewrite xor_bytes_length; exact Hpb).
+    assert (Hct : length ct = (length payload + 16)%nat) by (subst ct; apply seal_length).
+    unfold Protect.unprotect.
+    assert (Hs : skipn 4 (pnb' ++ ct) = skipn 4 (pn_bytes pnLen pn ++ ct)).
+    { apply sample_indep; lia. }
+    assert (P1 : (1 <= length pnb' <= 4)%nat) by lia.
+    assert (P2 : (20 <= length pnb' + length ct)%nat) by lia.
+    pose proof (unprotect_pre_shape aead_seal aead_open hp_mask true (Z.lxor first (Z.land (nth 0 mask 0) (first_mask true))) mid pnb' ct largest P1 P2) as Hu.
+    cbv zeta in Hu. rewrite Hs in Hu. fold mask in Hu. rewrite lxor_cancel in Hu. rewrite Hpb' in Hu.
+    specialize (Hu Hpl). rewrite Hu. clear Hu.
+    subst pnb'. rewrite xor_bytes_invol. fold hdr.
+    rewrite read_pn_truncate. rewrite Hdec.
+    destruct Hwf as (Hres & _). cbn [negb andb first_mask reserved_mask]. cbn [oa_pn oa_kp oa_hdr oa_ct].
+    unfold ct. rewrite open_seal. unfold unprotect_post. cbn [oa_reserved_bad oa_first oa_pn oa_pnLen oa_kp].
+    rewrite Hres. cbn [Z.eqb negb]. destruct payload; [congruence|]. reflexivity.
+  Qed.
+End RoundtripDec.
+
 Section ServerReads.
   Variable aead_seal : Z -> Z -> list Z -> list Z -> list Z.
   Variable aead_open : Z -> Z -> list Z -> list Z -> option (list Z).
@@ -134,7 +180,7 @@ Section ServerReads.
     zlen dcid <= 20 -> zlen scid <= 20 ->
     1 <= pnLen <= 4 -> pn < 2 ^ 62 -> 0 <= c_first c ->
     zlen payload = pk - h - overhead -> payload <> [] -> 4 <= pnLen + zlen payload ->
-    (largest = pn - 1 \/ (largest = -1 /\ pn <= 2 ^ (pnLen * 8) / 2)) ->
+    (largest = pn - 1 \/ (largest = -1 /\ pn < 2 ^ (pnLen * 8))) ->
     let hb := initialHeaderBytes ver dcid scid token lf pn pnLen in
     let pkt := protect aead_seal hp_mask true (snd hb) payload pn 0 (Z.to_nat pnLen) in
     fst hb = 0 /\ zlen (snd hb) = h /\
@@ -196,14 +242,16 @@ Section ServerReads.
     assert (Efirst : first = long_first (type_code ver H_PacketTypeInitial) n).
     { subst first n. unfold initialFirst, long_first. rewrite Z2Nat.id by lia. reflexivity. }
     rewrite Efirst.
-    apply (protect_roundtrip aead_seal aead_open hp_mask open_seal seal_length).
+    apply (protect_roundtrip_dec aead_seal aead_open hp_mask open_seal seal_length).
     - exact Hn.
     - apply long_first_wf; [exact Hn|exact Hc].
-    - lia.
-    - destruct Hlg as [-> | [-> _]]; lia.
     - subst n. rewrite Z2Nat.id by lia.
       assert (Hvl : valid_len pnLen) by (unfold valid_len; lia).
-      destruct (pow_len pnLen Hvl) as [E | [E | [E | E]]]; rewrite E in *; destruct Hlg as [-> | [-> Hw]]; lia.
+      destruct Hlg as [-> | [-> Hw]].
+      + destruct (Z.eq_dec pn 0) as [->|Hnz].
+        * apply first_pn_decodable_iff; [exact Hvl|lia|]. destruct (pow_len pnLen Hvl) as [E | [E | [E | E]]]; rewrite E; lia.
+        * apply next_pn_decodable; [exact Hvl|lia].
+      + apply first_pn_decodable_iff; [exact Hvl|lia|exact Hw].
     - exact Hne.
     - subst n. unfold zlen in Hmin. lia.
   Qed.
